@@ -250,6 +250,14 @@ Proof.
   - apply Forall_map_kill.
 Qed.
 
+Lemma inv1_cleanup_ids w ts :
+  Inv1 w -> Inv1 (fst (cleanup_ids w ts)) /\ Forall call_id1 (snd (cleanup_ids w ts)).
+Proof.
+  intros [F [M [S A]]]. unfold cleanup_ids. cbn. split.
+  - repeat split; try assumption. apply fw_all_master_kill. exact A.
+  - apply Forall_map_kill.
+Qed.
+
 Lemma inv1_launch w k : Inv1 w -> Inv1 (fst (launch w k)) /\ Forall call_id1 (snd (launch w k)).
 Proof.
   intros [F [M [S A]]]. unfold launch. cbn. split.
@@ -382,6 +390,7 @@ Proof.
   - apply inv1_resub. apply inv1_subscribe. exact H.
   - apply inv1_subscribe. exact H.
   - rewrite answer_with_eq. apply inv1_answer. exact H.
+  - apply inv1_cleanup_ids. exact H.
 Qed.
 
 Lemma inv1_boot : Inv1 (boot true).
@@ -534,7 +543,7 @@ Qed.
 
 Lemma invS_step w o : is_tamper o = false -> InvS w -> InvS (fst (step w o)).
 Proof.
-  intros T H. destruct o as [k|e|e keep|e|t|t s| |v| |p k| |k s|t|t| |p k| |om|om]; cbn [step]; try discriminate.
+  intros T H. destruct o as [k|e|e keep|e|t|t s| |v| |p k| |k s|t|t| |p k| |om|om|ts]; cbn [step]; try discriminate.
   - destruct (create_fields w k) as [_ [S [X [M _]]]]. unfold InvS. rewrite S, X, M. exact H.
   - exact H.
   - destruct (destroy_fields w e keep true) as [_ [S [X [M _]]]]. unfold InvS. rewrite S, X, M. exact H.
@@ -553,6 +562,7 @@ Proof.
   - apply invS_resub. apply invS_subscribe. left. exact H.
   - apply invS_subscribe. left. exact H.
   - rewrite answer_with_eq. destruct (answer_fields w) as [_ [S [X [M _]]]]. unfold InvS. rewrite S, X, M. exact H.
+  - exact H.
 Qed.
 
 Lemma invS_boot fo : InvS (boot fo).
@@ -595,7 +605,7 @@ Qed.
 
 Lemma step_launches w o t f : In (CLaunch t f) (snd (step w o)) -> f = w_mem w.
 Proof.
-  destruct o as [k|e|e keep|e|t1|t1 s| |v| |p k| |k s|t1|t1| |p k| |om|om]; cbn [step]; try (cbn; intros []; fail).
+  destruct o as [k|e|e keep|e|t1|t1 s| |v| |p k| |k s|t1|t1| |p k| |om|om|ts]; cbn [step]; try (cbn; intros []; fail).
   - apply create_launches.
   - unfold destroy. destruct (negb (memN e (w_envs w))); [intros []|].
     destruct keep; cbn; [intros []|]. intro H. apply in_map_iff in H. destruct H as [x [E _]]. discriminate.
@@ -613,6 +623,7 @@ Proof.
   - intro H. apply resub_launches in H. destruct (subscribe_no_launch w t f H).
   - intro H. destruct (subscribe_no_launch w t f H).
   - rewrite answer_with_eq. apply answer_launches.
+  - cbn. intro H. apply in_map_iff in H. destruct H as [x [E _]]. discriminate.
 Qed.
 
 (* the framework id is in the store before any task is launched under it *)
@@ -714,9 +725,9 @@ Qed.
 
 Lemma live_ok_step w o : live_ok (w_master w) -> live_ok (w_master (fst (step w o))).
 Proof.
-  intro H. destruct o as [k|e|e keep|e|t|t s| |v| |p k| |k s|t|t| |p k| |om|om];
+  intro H. destruct o as [k|e|e keep|e|t|t s| |v| |p k| |k s|t|t| |p k| |om|om|ts];
     [cbn [step]|cbn [step]|cbn [step]|cbn [step]|cbn [step]|cbn [step]|cbn [step]|cbn [step]|cbn [step]
-    |rewrite step_crash|cbn [step]|cbn [step]|cbn [step]|cbn [step]|cbn [step]|cbn [step]|cbn [step]|cbn [step]|cbn [step]].
+    |rewrite step_crash|cbn [step]|cbn [step]|cbn [step]|cbn [step]|cbn [step]|cbn [step]|cbn [step]|cbn [step]|cbn [step]|cbn [step]].
   - apply live_ok_create. exact H.
   - exact H.
   - apply live_ok_destroy. exact H.
@@ -744,6 +755,7 @@ Proof.
   - cbn. exact H.
   - exact H.
   - rewrite answer_with_eq. apply live_ok_answer. exact H.
+  - cbn. apply live_ok_master_kill. exact H.
 Qed.
 
 Lemma live_ok_run w ops : live_ok (w_master w) -> live_ok (w_master (after w ops)).
@@ -842,6 +854,12 @@ Proof.
   apply (purge_ok _ (w_roster w)); [intro t; reflexivity|exact C].
 Qed.
 
+Lemma inv2_cleanup_ids w ts : Inv2 w -> Inv2 (fst (cleanup_ids w ts)).
+Proof.
+  intros [C P]. unfold Inv2. cbn. split; [|exact P].
+  apply (purge_ok _ (w_roster w)); [intro t; reflexivity|exact C].
+Qed.
+
 Lemma inv2_launch w k : Inv2 w -> Inv2 (fst (launch w k)).
 Proof.
   intros [C P]. unfold Inv2. cbn. split; [|exact P].
@@ -919,7 +937,7 @@ Qed.
 
 Lemma inv2_step w o : tame o = true -> Inv2 w -> Inv2 (fst (step w o)).
 Proof.
-  intros T H. destruct o as [k|e|e keep|e|t|t s| |v| |p k| |k s|t|t| |p k| |om|om]; cbn [step]; try discriminate.
+  intros T H. destruct o as [k|e|e keep|e|t|t s| |v| |p k| |k s|t|t| |p k| |om|om|ts]; cbn [step]; try discriminate.
   - apply inv2_create. exact H.
   - exact H.
   - apply inv2_destroy. exact H.
@@ -943,6 +961,7 @@ Proof.
     apply (covered_relabel (w_master w) _ (w_roster w)); [|intro t'; apply roster_deactivate_in_roster|exact C].
     intros x Hx. exists x. auto.
   - rewrite answer_with_eq. apply inv2_answer. exact H.
+  - apply inv2_cleanup_ids. exact H.
 Qed.
 
 (* EVERY (re)subscription is followed by the implicit reconciliation (the regenerated
@@ -1434,4 +1453,329 @@ Proof.
                 (forallb_tame_answers n)) as K.
   cbn zeta in K. fold w in K. fold w1 in K. specialize (K P t Ht A).
   rewrite R in K. discriminate.
+Qed.
+
+(* ================================================================ ownership survives every
+   operation that is neither the teardown of that environment nor a restart: a task locked by a
+   live environment stays in the roster, locked by it (kill requests - Cleanup, KillTasks with a
+   list of ids, the Cleanup of a CreateEnvironment - only ever remove unlocked tasks) *)
+Definition Own (w : world) (t e : N) : Prop :=
+  (exists r, In r (w_roster w) /\ rt_id r = t /\ rt_env r = Some e) /\ memN e (w_envs w) = true.
+
+Definition tears_down (o : op) (e : N) : bool :=
+  match o with
+  | ODestroy e' _ | ODestroyStuck e' => N.eqb e' e
+  | OCrash _ _ | OCrashLost _ _ => true
+  | _ => false
+  end.
+
+(* roster ids are unique and below the task counter: in every world reachable from boot *)
+Definition RI (w : world) : Prop :=
+  NoDup (map rt_id (w_roster w)) /\ roster_lt (w_roster w) (w_ntask w).
+
+Lemma map_id_activate ts ros : map rt_id (roster_activate ts ros) = map rt_id ros.
+Proof. unfold roster_activate. rewrite map_map. apply map_ext. intro r. destruct (memN (rt_id r) ts); reflexivity. Qed.
+Lemma map_id_deactivate ts ros : map rt_id (roster_deactivate ts ros) = map rt_id ros.
+Proof. unfold roster_deactivate. rewrite map_map. apply map_ext. intro r. destruct (memN (rt_id r) ts); reflexivity. Qed.
+Lemma map_id_release e ros : map rt_id (release e ros) = map rt_id ros.
+Proof. unfold release. rewrite map_map. apply map_ext. intro r. destruct (option_eqb N.eqb (rt_env r) (Some e)); reflexivity. Qed.
+
+Lemma NoDup_map_filter {A B} (f : A -> B) (p : A -> bool) l :
+  NoDup (map f l) -> NoDup (map f (filter p l)).
+Proof.
+  induction l as [|a l IH]; cbn; intro H; [constructor|]. inversion H; subst.
+  destruct (p a); cbn; [constructor|]; auto.
+  intro X. apply H2. apply in_map_iff in X. destruct X as [b [E Hb]]. apply filter_In in Hb.
+  apply in_map_iff. exists b. split; [exact E|apply Hb].
+Qed.
+
+Lemma new_ids_NoDup k : forall from, NoDup (new_ids from k).
+Proof.
+  induction k as [|k IH]; intro from; cbn; constructor; [|apply IH].
+  intro H. apply new_ids_spec in H. lia.
+Qed.
+
+Lemma ri_remove ts w ros' :
+  RI w -> ros' = remove_ids ts (w_roster w) ->
+  NoDup (map rt_id ros') /\ roster_lt ros' (w_ntask w).
+Proof.
+  intros [N L] E. subst. split; [apply NoDup_map_filter; exact N|apply roster_lt_remove; exact L].
+Qed.
+
+Lemma ri_cleanup w : RI w -> RI (fst (cleanup w)).
+Proof. intro H. unfold RI. cbn. eapply ri_remove; [exact H|reflexivity]. Qed.
+
+Lemma ri_cleanup_ids w ts : RI w -> RI (fst (cleanup_ids w ts)).
+Proof. intro H. unfold RI. cbn. eapply ri_remove; [exact H|reflexivity]. Qed.
+
+Lemma NoDup_append {A} (a b : list A) :
+  NoDup a -> NoDup b -> (forall x, In x a -> ~ In x b) -> NoDup (a ++ b).
+Proof.
+  induction a as [|x a IH]; cbn; intros Na Nb D; [exact Nb|]. inversion Na; subst. constructor.
+  - intro H. apply in_app_or in H. destruct H as [H|H]; [contradiction|]. apply (D x); auto.
+  - apply IH; auto.
+Qed.
+
+Lemma ri_launch w k : RI w -> RI (fst (launch w k)).
+Proof.
+  intros [N L]. unfold RI. cbn. split.
+  - rewrite map_app, map_map. cbn. rewrite map_id. apply NoDup_append; [exact N|apply new_ids_NoDup|].
+    intros x Hx Hn. apply in_map_iff in Hx. destruct Hx as [r [E Hr]]. apply new_ids_spec in Hn.
+    pose proof (L r Hr). lia.
+  - intros r Hr. apply in_app_or in Hr. destruct Hr as [Hr|Hr].
+    + pose proof (L r Hr). lia.
+    + apply in_map_iff in Hr. destruct Hr as [i [E Hi]]. subst r. cbn.
+      apply new_ids_spec in Hi. rewrite N2Nat.id in Hi. lia.
+Qed.
+
+Lemma ri_create w k : RI w -> RI (fst (create w k)).
+Proof.
+  intro H. unfold create. pose proof (ri_cleanup w H) as H1. destruct (cleanup w) as [w1 c1]. cbn [fst] in H1.
+  pose proof (ri_launch w1 k H1) as H2. destruct (launch w1 k) as [w2 c2]. exact H2.
+Qed.
+
+Lemma ri_same_ids w w' :
+  RI w -> map rt_id (w_roster w') = map rt_id (w_roster w) -> w_ntask w' = w_ntask w -> RI w'.
+Proof.
+  intros [N L] E T. unfold RI. rewrite E, T. split; [exact N|].
+  intros r Hr. assert (I : In (rt_id r) (map rt_id (w_roster w'))) by (apply in_map; exact Hr).
+  rewrite E in I. apply in_map_iff in I. destruct I as [q [Eq Hq]]. rewrite <- Eq. apply L. exact Hq.
+Qed.
+
+Lemma ri_answer w om : RI w -> RI (fst (answer_with w om)).
+Proof.
+  intro H. unfold answer_with. destruct (w_pending w) as [|[t s] rest]; [exact H|].
+  destruct (memN s recon_kill_states && negb (recon_guarded && in_roster t (w_roster w))).
+  - apply (ri_same_ids w); [exact H|cbn; apply map_id_deactivate|reflexivity].
+  - apply (ri_same_ids w); [exact H| |reflexivity]. cbn [fst w_roster].
+    destruct (memN s status_activating); [rewrite refreshed_id; apply map_id_activate|reflexivity].
+Qed.
+
+Lemma ri_subscribe w : RI w -> RI (fst (subscribe w)).
+Proof. intro H. apply (ri_same_ids w); [exact H|reflexivity|reflexivity]. Qed.
+
+Lemma ri_empty w : w_roster w = [] -> RI w.
+Proof. intro E. unfold RI. rewrite E. split; [constructor|intros r []]. Qed.
+
+Lemma ri_destroy w e keep eff : RI w -> RI (fst (destroy w e keep eff)).
+Proof.
+  intro H. unfold destroy. destruct (negb (memN e (w_envs w))); [exact H|]. destruct keep.
+  - apply (ri_same_ids w); [exact H|cbn; apply map_id_release|reflexivity].
+  - destruct H as [N L]. unfold RI. cbn. split.
+    + apply NoDup_map_filter. rewrite map_id_release. exact N.
+    + apply roster_lt_remove. apply roster_lt_release. exact L.
+Qed.
+
+Lemma ri_crashstep w p k : RI (fst (step w (OCrash p k))).
+Proof.
+  apply ri_empty. destruct (crash_roster_nil w p k) as [R _]. exact R.
+Qed.
+
+Lemma ri_resub wc : RI (fst wc) -> RI (fst (resubscribe_after_loss wc)).
+Proof.
+  destruct wc as [w2 c2]. cbn [fst]. intro H. unfold resubscribe_after_loss.
+  pose proof (ri_subscribe (set_w_pending w2 []) H) as X.
+  destruct (subscribe (set_w_pending w2 [])) as [w3 c3]. exact X.
+Qed.
+
+Lemma ri_step w o : RI w -> RI (fst (step w o)).
+Proof.
+  intro H. destruct o as [k|e|e keep|e|t|t s| |v| |p k| |k s|t|t| |p k| |om|om|ts].
+  - apply ri_create. exact H.
+  - exact H.
+  - apply ri_destroy. exact H.
+  - apply ri_destroy. exact H.
+  - apply (ri_same_ids w); [exact H|cbn; apply map_id_deactivate|reflexivity].
+  - cbn [step]. destruct (memN s mesos_live_states); exact H.
+  - apply ri_cleanup. exact H.
+  - exact H.
+  - apply ri_subscribe. exact H.
+  - apply ri_crashstep.
+  - apply (ri_answer w 0 H).
+  - cbn [step]. unfold create_held. pose proof (ri_create w k H) as H1.
+    destruct (create w k) as [w1 c1]. cbn [fst] in *.
+    apply (ri_same_ids w1); [exact H1|cbn; apply map_id_deactivate|reflexivity].
+  - cbn [step]. destruct (alive_at t (w_master w)); [|exact H].
+    apply (ri_same_ids w); [exact H|cbn; apply map_id_activate|reflexivity].
+  - cbn [step]. destruct (alive_at t (w_master w)); [|exact H].
+    apply (ri_same_ids w); [exact H|cbn; apply map_id_deactivate|reflexivity].
+  - exact H.
+  - cbn [step]. change (crash_step w p k) with (step w (OCrash p k)). apply ri_resub. apply ri_crashstep.
+  - cbn [step]. apply ri_resub. apply ri_subscribe. exact H.
+  - apply ri_subscribe. exact H.
+  - apply (ri_answer w om H).
+  - apply ri_cleanup_ids. exact H.
+Qed.
+
+Lemma ri_reachable fo ops : RI (after (boot fo) ops).
+Proof.
+  apply (run_invariant RI (fun _ => true)).
+  - intros w o _. apply ri_step.
+  - apply forallb_forall. reflexivity.
+  - apply ri_empty. reflexivity.
+Qed.
+
+(* --- Own is preserved --- *)
+Lemma own_map (f : rtask -> rtask) w w' t e :
+  (forall r, rt_id (f r) = rt_id r /\ (rt_env r = Some e -> rt_env (f r) = Some e)) ->
+  w_roster w' = map f (w_roster w) -> w_envs w' = w_envs w -> Own w t e -> Own w' t e.
+Proof.
+  intros Hf R E [[r [Hr [I V]]] M]. unfold Own. rewrite R, E. split; [|exact M].
+  exists (f r). destruct (Hf r) as [A B]. split; [apply in_map; exact Hr|]. split; [congruence|auto].
+Qed.
+
+(* a purge of unlocked tasks: what is locked stays (ids are unique) *)
+Lemma own_purge w sel t e :
+  RI w -> (forall r, sel r = true -> rt_env r = None) ->
+  Own w t e ->
+  (exists r, In r (remove_ids (map rt_id (filter sel (w_roster w))) (w_roster w)) /\ rt_id r = t /\ rt_env r = Some e).
+Proof.
+  intros [N _] Hs [[r [Hr [I V]]] _]. exists r. split; [|auto]. apply remove_ids_in. split; [exact Hr|].
+  destruct (memN (rt_id r) (map rt_id (filter sel (w_roster w)))) eqn:X; [|reflexivity]. exfalso.
+  apply memN_In in X. apply in_map_iff in X. destruct X as [q [Eq Hq]]. apply filter_In in Hq.
+  destruct Hq as [Hq Sq]. assert (q = r).
+  { clear - N Hq Hr Eq. induction (w_roster w) as [|a l IH]; [destruct Hq|]. cbn in N. inversion N; subst.
+    destruct Hq as [Hq|Hq], Hr as [Hr|Hr]; subst; auto.
+    - exfalso. apply H1. rewrite Eq. apply in_map. exact Hr.
+    - exfalso. apply H1. rewrite <- Eq. apply in_map. exact Hq. }
+  subst q. rewrite (Hs r Sq) in V. discriminate.
+Qed.
+
+Lemma own_same w w' t e :
+  w_roster w' = w_roster w -> w_envs w' = w_envs w -> Own w t e -> Own w' t e.
+Proof. intros R E H. unfold Own in *. rewrite R, E. exact H. Qed.
+
+Lemma own_purge_gen ros ros1 sel t e :
+  NoDup (map rt_id ros) ->
+  (forall r, sel r = true -> rt_env r <> Some e) ->
+  (forall r, In r ros -> rt_env r = Some e -> In r ros1) ->
+  (exists r, In r ros /\ rt_id r = t /\ rt_env r = Some e) ->
+  exists r, In r (remove_ids (map rt_id (filter sel ros)) ros1) /\ rt_id r = t /\ rt_env r = Some e.
+Proof.
+  intros N Hs H1 [r [Hr [I V]]]. exists r. split; [|auto]. apply remove_ids_in. split; [apply H1; assumption|].
+  destruct (memN (rt_id r) (map rt_id (filter sel ros))) eqn:X; [|reflexivity]. exfalso.
+  apply memN_In in X. apply in_map_iff in X. destruct X as [q [Eq Hq]]. apply filter_In in Hq.
+  destruct Hq as [Hq Sq]. assert (q = r).
+  { clear - N Hq Hr Eq. induction ros as [|a l IH]; [destruct Hq|]. cbn in N. inversion N; subst.
+    destruct Hq as [Hq|Hq], Hr as [Hr|Hr]; subst; auto.
+    - exfalso. apply H1. rewrite Eq. apply in_map. exact Hr.
+    - exfalso. apply H1. rewrite <- Eq. apply in_map. exact Hq. }
+  subst q. apply (Hs r Sq). exact V.
+Qed.
+
+Lemma own_cleanup w t e : RI w -> Own w t e -> Own (fst (cleanup w)) t e.
+Proof.
+  intros [N _] [X M]. unfold Own. cbn. split; [|exact M].
+  apply own_purge_gen; auto. intros r S V. rewrite V in S. discriminate.
+Qed.
+
+(* (killtasks_removes_unlisted = false, regenerated: KillTasks itself writes the roster with
+   nothing but its kill list - the unlocked roster tasks among the ids it was given) *)
+Lemma own_cleanup_ids w ts t e : RI w -> Own w t e -> Own (fst (cleanup_ids w ts)) t e.
+Proof.
+  assert (E : killtasks_removes_unlisted = false) by reflexivity.
+  intros [N _] [X M]. unfold Own. cbn. split; [|exact M].
+  apply own_purge_gen; auto. intros r S V. rewrite V in S. rewrite andb_false_r in S. discriminate.
+Qed.
+
+Lemma own_launch w k t e : Own w t e -> Own (fst (launch w k)) t e.
+Proof.
+  intros [[r [Hr IV]] M]. unfold Own. cbn. split.
+  - exists r. split; [apply in_or_app; left; exact Hr|exact IV].
+  - unfold memN in *. rewrite existsb_app, M. reflexivity.
+Qed.
+
+Lemma own_create w k t e : RI w -> Own w t e -> Own (fst (create w k)) t e.
+Proof.
+  intros R H. unfold create. pose proof (own_cleanup w t e R H) as H1.
+  destruct (cleanup w) as [w1 c1]. cbn [fst] in H1. pose proof (own_launch w1 k t e H1) as H2.
+  destruct (launch w1 k) as [w2 c2]. exact H2.
+Qed.
+
+Lemma memN_remove_env e e' envs : N.eqb e' e = false -> memN e envs = true -> memN e (remove_env e' envs) = true.
+Proof.
+  intros Ne M. apply memN_In. apply memN_In in M. unfold remove_env. apply filter_In. split; [exact M|].
+  rewrite N.eqb_sym. rewrite Ne. reflexivity.
+Qed.
+
+Lemma own_destroy w e' keep eff t e :
+  RI w -> N.eqb e' e = false -> Own w t e -> Own (fst (destroy w e' keep eff)) t e.
+Proof.
+  intros [N _] Ne H. unfold destroy. destruct (negb (memN e' (w_envs w))); [exact H|].
+  destruct H as [X M].
+  assert (REL : forall r, In r (w_roster w) -> rt_env r = Some e -> In r (release e' (w_roster w))).
+  { intros r Hr V. unfold release. apply in_map_iff. exists r. split; [|exact Hr].
+    rewrite V. cbn. rewrite N.eqb_sym, Ne. reflexivity. }
+  destruct keep; unfold Own; cbn; (split; [|apply memN_remove_env; assumption]).
+  - destruct X as [r [Hr [I V]]]. exists r. auto.
+  - unfold env_tasks. apply own_purge_gen; auto.
+    intros r S V. rewrite V in S. cbn in S. rewrite N.eqb_sym, Ne in S. discriminate.
+Qed.
+
+Lemma own_answer w om t e : Own w t e -> Own (fst (answer_with w om)) t e.
+Proof.
+  intro H. unfold answer_with. destruct (w_pending w) as [|[t0 s] rest]; [exact H|].
+  destruct (memN s recon_kill_states && negb (recon_guarded && in_roster t0 (w_roster w))).
+  - apply (own_map (fun r => if memN (rt_id r) [t0] then mkR (rt_id r) (rt_env r) false else r) w); auto.
+    intro r. destruct (memN (rt_id r) [t0]); cbn; auto.
+  - destruct (memN s status_activating) eqn:A.
+    + apply (own_map (fun r => if memN (rt_id r) [t0] then mkR (rt_id r) (rt_env r) true else r) w);
+        [intro r; destruct (memN (rt_id r) [t0]); cbn; auto
+        |cbn [fst w_roster]; rewrite refreshed_id; reflexivity|reflexivity|exact H].
+    + apply (own_same w); [reflexivity|reflexivity|exact H].
+Qed.
+
+Lemma own_resub wc w t e :
+  w_roster (fst wc) = w_roster w -> w_envs (fst wc) = w_envs w -> Own w t e ->
+  Own (fst (resubscribe_after_loss wc)) t e.
+Proof.
+  destruct wc as [w2 c2]. cbn [fst]. intros R E H. unfold resubscribe_after_loss.
+  assert (X : Own (fst (subscribe (set_w_pending w2 []))) t e) by (apply (own_same w); assumption).
+  destruct (subscribe (set_w_pending w2 [])) as [w3 c3]. exact X.
+Qed.
+
+(* a task locked by a live environment stays in the roster, locked by it, through every operation
+   that is neither the teardown of that environment nor a restart *)
+Lemma own_step w o t e :
+  RI w -> tears_down o e = false -> Own w t e -> Own (fst (step w o)) t e.
+Proof.
+  intros R T H. destruct o as [k|e'|e' keep|e'|t'|t' s| |v| |p k| |k s|t'|t'| |p k| |om|om|ts];
+    cbn [tears_down] in T; try discriminate.
+  - apply own_create; assumption.
+  - exact H.
+  - apply own_destroy; assumption.
+  - apply own_destroy; assumption.
+  - apply (own_map (fun r => if memN (rt_id r) [t'] then mkR (rt_id r) (rt_env r) false else r) w); auto.
+    intro r. destruct (memN (rt_id r) [t']); cbn; auto.
+  - cbn [step]. destruct (memN s mesos_live_states); [apply (own_same w); auto|exact H].
+  - apply own_cleanup; assumption.
+  - exact H.
+  - apply (own_same w); auto.
+  - apply (own_answer w 0 t e H).
+  - cbn [step]. unfold create_held. pose proof (own_create w k t e R H) as H1.
+    destruct (create w k) as [w1 c1]. cbn [fst] in *.
+    apply (own_map (fun r => if memN (rt_id r) (new_ids (w_ntask w) (N.to_nat k)) then mkR (rt_id r) (rt_env r) false else r) w1); auto.
+    intro r. destruct (memN (rt_id r) (new_ids (w_ntask w) (N.to_nat k))); cbn; auto.
+  - cbn [step]. destruct (alive_at t' (w_master w)); [|exact H].
+    apply (own_map (fun r => if memN (rt_id r) [t'] then mkR (rt_id r) (rt_env r) true else r) w); auto.
+    intro r. destruct (memN (rt_id r) [t']); cbn; auto.
+  - cbn [step]. destruct (alive_at t' (w_master w)); [|exact H].
+    apply (own_map (fun r => if memN (rt_id r) [t'] then mkR (rt_id r) (rt_env r) false else r) w); auto.
+    intro r. destruct (memN (rt_id r) [t']); cbn; auto.
+  - exact H.
+  - cbn [step]. apply (own_resub _ w); auto.
+  - apply (own_same w); auto.
+  - apply (own_answer w om t e H).
+  - apply own_cleanup_ids; assumption.
+Qed.
+
+Lemma ownership_survives fo ops o t e :
+  tears_down o e = false ->
+  Own (after (boot fo) ops) t e -> Own (fst (step (after (boot fo) ops) o)) t e.
+Proof. intros T H. apply own_step; [apply ri_reachable|exact T|exact H]. Qed.
+
+Lemma own_in_roster w t e : Own w t e -> in_roster t (w_roster w) = true /\ owned w t = true.
+Proof.
+  intros [[r [Hr [I V]]] M]. split; [apply in_roster_spec; eauto|].
+  rewrite owned_is_owned_c. apply owned_c_spec. exists r, e. auto.
 Qed.
